@@ -1,7 +1,275 @@
-(* C41 -- String and regex builtins satisfy their algebraic laws.
-   Property theorems only; every proof is [exact <lemma>]. *)
-From verif Require Import lib.Base lib.Utf8 model.C41 proofs.C41_proofs.
+(* C41 -- String and regex builtins satisfy their algebraic laws
+   (pkg/mods/str, pkg/mods/re).  Property theorems only; every proof is
+   [exact <lemma>].  Go's regexp engine is not modelled: the regex theorems
+   hold for every match list that satisfies the FindAllIndex contract
+   [wf_matches]. *)
+From verif Require Import lib.Base lib.Utf8 model.C41 proofs.C41_proofs proofs.C41_agree.
 
-Theorem C41_has_prefix_def : forall s p, has_prefix s p = true <-> exists t, s = p ++ t.
-Proof. exact has_prefix_iff. Qed.
-Print Assumptions C41_has_prefix_def.
+(* ---- join after split ---- *)
+
+(* For all strings s and all separators (the empty one too, where the split is
+   per rune and even invalid bytes survive), with any max option that lets
+   something out: joining the split with the same separator gives s back. *)
+Theorem C41_join_split : forall max sep s, max <> 0%Z -> join sep (str_split max sep s) = s.
+Proof. exact join_split. Qed.
+Print Assumptions C41_join_split.
+
+(* the same for the underlying SplitN model with any fuel and any limit, so the
+   law does not depend on the fuel being enough *)
+Theorem C41_join_splitn_any_fuel : forall f k sep s, join sep (splitn_fuel f k sep s) = s.
+Proof. exact join_splitn. Qed.
+Print Assumptions C41_join_splitn_any_fuel.
+
+(* the fuel the wrapper passes is enough: more fuel never changes the pieces *)
+Theorem C41_split_fuel_enough : forall f g k sep s, sep <> [] ->
+  (length s < f)%nat -> (length s < g)%nat -> splitn_fuel f k sep s = splitn_fuel g k sep s.
+Proof. exact splitn_fuel_enough. Qed.
+Print Assumptions C41_split_fuel_enough.
+
+(* empty separator, no limit, valid UTF-8: one piece per code point *)
+Theorem C41_split_empty_sep_per_rune : forall max s, (max < 0)%Z -> valid s = true ->
+  str_split max [] s = map encode_rune (decode_all s).
+Proof. exact split_empty_sep_per_rune. Qed.
+Print Assumptions C41_split_empty_sep_per_rune.
+
+(* str:replace without a limit is split by old, joined by new *)
+Theorem C41_replace_is_join_split : forall max old new s, (max < 0)%Z -> old <> [] ->
+  str_replace max old new s = join new (str_split max old s).
+Proof. exact str_replace_is_join_split. Qed.
+Print Assumptions C41_replace_is_join_split.
+
+(* ---- code points and bytes ---- *)
+
+Theorem C41_codepoints_roundtrip : forall s, valid s = true ->
+  from_codepoints (to_codepoints s) = ROk s.
+Proof. exact codepoints_roundtrip. Qed.
+Print Assumptions C41_codepoints_roundtrip.
+
+(* the other direction, with the validity range from-codepoints enforces: a
+   result exists only when every number is in 0..0x10FFFF and no surrogate, and
+   then it is valid UTF-8 whose code points are the numbers *)
+Theorem C41_from_codepoints_roundtrip : forall nums b, from_codepoints nums = ROk b ->
+  to_codepoints b = nums /\ valid b = true
+  /\ Forall (fun n => (0 <= n <= Z.of_N MaxRune)%Z /\ is_surrogate (Z.to_N n) = false) nums.
+Proof. exact from_codepoints_ok. Qed.
+Print Assumptions C41_from_codepoints_roundtrip.
+
+Theorem C41_from_codepoints_rejects_surrogates : forall n, (55296 <= n <= 57343)%Z ->
+  from_codepoints [n] = RBadValue.
+Proof. exact from_codepoints_surrogate. Qed.
+Print Assumptions C41_from_codepoints_rejects_surrogates.
+
+Theorem C41_from_codepoints_rejects_out_of_range : forall n, (n < 0 \/ 1114111 < n)%Z ->
+  from_codepoints [n] = ROutOfRange.
+Proof. exact from_codepoints_out_of_range. Qed.
+Print Assumptions C41_from_codepoints_rejects_out_of_range.
+
+Theorem C41_utf8_bytes_roundtrip : forall s, Forall (fun b => (b < 256)%N) s -> valid s = true ->
+  from_utf8_bytes (to_utf8_bytes s) = ROk s.
+Proof. exact utf8_bytes_roundtrip. Qed.
+Print Assumptions C41_utf8_bytes_roundtrip.
+
+Theorem C41_from_utf8_bytes_roundtrip : forall nums b, from_utf8_bytes nums = ROk b ->
+  to_utf8_bytes b = nums /\ valid b = true /\ Forall (fun n => (0 <= n <= 255)%Z) nums.
+Proof. exact from_utf8_bytes_ok. Qed.
+Print Assumptions C41_from_utf8_bytes_roundtrip.
+
+(* ---- re:quote ---- *)
+
+(* QuoteMeta s lies in the literal fragment, and the language it denotes under
+   the fragment semantics is exactly {s} *)
+Theorem C41_quote_matches_literally : forall s,
+  exists r, parse_lit (quote_meta s) = Some r /\ forall w, seq_matches r w <-> w = s.
+Proof. exact quote_matches_literally. Qed.
+Print Assumptions C41_quote_matches_literally.
+
+Theorem C41_quote_injective : forall s t, quote_meta s = quote_meta t -> s = t.
+Proof. exact quote_meta_injective. Qed.
+Print Assumptions C41_quote_injective.
+
+(* what lit_matches reports for a non-empty literal are occurrences of it *)
+Theorem C41_literal_matches_are_occurrences : forall f off w t a b,
+  In (a, b) (occ_fuel f off w t) ->
+  (off <= a)%nat /\ b = (a + length w)%nat /\ (b <= off + length t)%nat
+  /\ slice t (a - off) (b - off) = w.
+Proof. exact occ_fuel_sound. Qed.
+Print Assumptions C41_literal_matches_are_occurrences.
+
+(* ---- find / split / replace agree on the match positions ---- *)
+
+(* For every match list satisfying the contract (whatever engine produced it)
+   and every max: re:split as the Go loop computes it is the gaps between the
+   matches find reports (those not ending at offset 0, max-1 of them at most,
+   the last gap left out when the last used match starts at the end). *)
+Theorem C41_find_split_agree : forall max p s ms, wf_matches s ms = true ->
+  re_split max p s ms = re_split_spec max p s ms.
+Proof. exact re_split_is_spec. Qed.
+Print Assumptions C41_find_split_agree.
+
+(* re:replace is the gaps interleaved with the replacements (literal or
+   expanded template), for every match list *)
+Theorem C41_find_replace_agree : forall repl tpl s ms,
+  re_replace_lit repl s ms = weave (gaps s (map pos_of ms) 0) (map (fun _ => repl) ms)
+  /\ re_replace_tpl tpl s ms
+     = weave (gaps s (map pos_of ms) 0) (map (fun m => expand tpl s (m_groups m)) ms).
+Proof. exact (fun repl tpl s ms => conj (re_replace_lit_spec repl s ms) (re_replace_tpl_spec tpl s ms)). Qed.
+Print Assumptions C41_find_replace_agree.
+
+(* replacing every match by its own text gives the text back: the gaps and the
+   matches tile the text *)
+Theorem C41_gaps_and_matches_tile : forall s ms, wf_matches s ms = true ->
+  weave (gaps s ms 0) (map (fun m => slice s (fst m) (snd m)) ms) = s.
+Proof. exact (fun s ms W => weave_texts s (length s) ms 0 None eq_refl W eq_refl). Qed.
+Print Assumptions C41_gaps_and_matches_tile.
+
+(* replace by a constant = split joined by the constant, away from the two
+   places where split deliberately drops a piece *)
+Theorem C41_replace_is_join_of_split : forall repl p s ms,
+  wf_matches s (map pos_of ms) = true ->
+  Forall (fun m => m_e m <> 0%nat /\ m_s m <> length s) ms ->
+  re_replace_lit repl s ms = join repl (re_split (-1) p s (map pos_of ms)).
+Proof. exact replace_is_join_of_split. Qed.
+Print Assumptions C41_replace_is_join_of_split.
+
+(* ---- prefix, suffix, trim ---- *)
+
+Theorem C41_prefix_suffix_defs : forall s p,
+  (has_prefix s p = true <-> exists t, s = p ++ t)
+  /\ (has_suffix s p = true <-> exists t, s = t ++ p)
+  /\ (has_prefix s p = true -> p ++ trim_prefix s p = s)
+  /\ (has_prefix s p = false -> trim_prefix s p = s)
+  /\ (has_suffix s p = true -> trim_suffix s p ++ p = s)
+  /\ (has_suffix s p = false -> trim_suffix s p = s).
+Proof.
+  exact (fun s p => conj (has_prefix_iff s p) (conj (has_suffix_iff s p)
+    (conj (proj1 (trim_prefix_def s p)) (conj (proj2 (trim_prefix_def s p))
+    (conj (proj1 (trim_suffix_def s p)) (proj2 (trim_suffix_def s p))))))).
+Qed.
+Print Assumptions C41_prefix_suffix_defs.
+
+(* str:index: the first occurrence, or none *)
+Theorem C41_index_def : forall s sub,
+  (forall m, index s sub = Some m ->
+     (m <= length s)%nat /\ has_prefix (skipn m s) sub = true
+     /\ forall j, (j < m)%nat -> has_prefix (skipn j s) sub = false)
+  /\ (index s sub = None -> forall j, (j <= length s)%nat -> has_prefix (skipn j s) sub = false).
+Proof. exact (fun s sub => conj (index_some s sub) (index_none s sub)). Qed.
+Print Assumptions C41_index_def.
+
+(* on valid UTF-8 the Go loops (forward DecodeRune, backward DecodeLastRune)
+   remove exactly the leading / trailing code points in the cutset; trim-space
+   does so for the White_Space code points *)
+Theorem C41_trim_defs : forall s cut, valid s = true ->
+  trim_left s cut = trim_left_spec (in_cutset cut) s
+  /\ trim_right s cut = trim_right_spec (in_cutset cut) s
+  /\ trim s cut = trim_both_spec (in_cutset cut) s
+  /\ trim_space s = trim_both_spec is_space s.
+Proof. exact trim_valid. Qed.
+Print Assumptions C41_trim_defs.
+
+(* DecodeLastRune finds the rune a string ends with, whatever precedes it *)
+Theorem C41_decode_last_encode : forall t r, valid_rune r = true ->
+  decode_last (t ++ encode_rune r) = (r, rune_len r).
+Proof. exact decode_last_encode. Qed.
+Print Assumptions C41_decode_last_encode.
+
+(* ---- repeat ---- *)
+
+(* Full statement (false of the code, see the refutation below):
+     forall s n, exists b, str_repeat s n = ROk b \/ str_repeat s n = RBadValue
+   i.e. str:repeat never lets a Go panic escape. *)
+Theorem C41_repeat_never_panics_refuted : exists s n, str_repeat s n = RPanic.
+Proof. exact str_repeat_panics. Qed.
+Print Assumptions C41_repeat_never_panics_refuted.
+
+Theorem C41_repeat_partial : forall s n,
+  ((0 <= n)%Z -> (Z.of_nat (length s) * n < two63)%Z ->
+     str_repeat s n = ROk (repeat_n (Z.to_nat n) s)
+     /\ length (repeat_n (Z.to_nat n) s) = (Z.to_nat n * length s)%nat)
+  /\ ((n < 0)%Z -> str_repeat s n = RBadValue).
+Proof.
+  exact (fun s n => conj (fun H1 H2 => conj (str_repeat_fits s n H1 H2) (repeat_n_length _ s))
+                         (str_repeat_negative s n)).
+Qed.
+Print Assumptions C41_repeat_partial.
+
+Theorem C41_repeat_add : forall n m s, repeat_n (n + m) s = repeat_n n s ++ repeat_n m s.
+Proof. exact repeat_n_add. Qed.
+Print Assumptions C41_repeat_add.
+
+(* ---- the oracle and the model ---- *)
+
+Theorem C41_oracle_sound : forall c, oracle c = true -> Spec_C41 c.
+Proof. exact oracle_sound. Qed.
+Print Assumptions C41_oracle_sound.
+
+(* the model's observations pass the oracle for all inputs *)
+Theorem C41_model_split_ok : forall max sep s,
+  oracle (CSplit max sep s (str_split max sep s) (ROk (join sep (str_split max sep s)))) = true.
+Proof. exact model_split_ok. Qed.
+Print Assumptions C41_model_split_ok.
+
+Theorem C41_model_affix_ok : forall s p,
+  oracle (CAffix s p (has_prefix s p) (has_suffix s p) (trim_prefix s p) (trim_suffix s p)
+            (index_z s p)) = true.
+Proof. exact model_affix_ok. Qed.
+Print Assumptions C41_model_affix_ok.
+
+Theorem C41_model_trim_ok : forall s cut,
+  oracle (CTrim s cut (trim_left s cut) (trim_right s cut) (trim s cut) (trim_space s)) = true.
+Proof. exact model_trim_ok. Qed.
+Print Assumptions C41_model_trim_ok.
+
+Theorem C41_model_codepoints_ok : forall s,
+  oracle (CCodepoints s (to_codepoints s) (from_codepoints (to_codepoints s))) = true.
+Proof. exact model_codepoints_ok. Qed.
+Print Assumptions C41_model_codepoints_ok.
+
+Theorem C41_model_from_codepoints_ok : forall nums,
+  oracle (CFromCp nums (from_codepoints nums)
+            (match from_codepoints nums with ROk b => to_codepoints b | _ => [] end)) = true.
+Proof. exact model_from_cp_ok. Qed.
+Print Assumptions C41_model_from_codepoints_ok.
+
+Theorem C41_model_bytes_ok : forall s, Forall (fun b => (b < 256)%N) s ->
+  oracle (CBytes s (to_utf8_bytes s) (from_utf8_bytes (to_utf8_bytes s))) = true.
+Proof. exact model_bytes_ok. Qed.
+Print Assumptions C41_model_bytes_ok.
+
+(* for every match list satisfying the contract (and agreeing with the literal
+   semantics when the pattern is in the fragment): the model's find-with-max,
+   split and replace pass the oracle *)
+Theorem C41_model_regex_ok : forall p t max repl tpl full,
+  wf_matches t (map pos_of full) = true -> texts_ok t full = true ->
+  (forall r, parse_lit p = Some r -> map pos_of full = lit_matches (denote r) t) ->
+  oracle (CRegex p t max repl tpl full (firstn_max max (map pos_of full))
+            (re_split (-1) p t (map pos_of full)) (re_split max p t (map pos_of full))
+            (re_replace_lit repl t full) (re_replace_tpl tpl t full)) = true.
+Proof. exact model_regex_ok. Qed.
+Print Assumptions C41_model_regex_ok.
+
+(* ---- non-vacuity ---- *)
+
+Example C41_ex_split : str_split (-1) [44]%N [97; 44; 98; 44]%N = [[97]; [98]; []]%N.
+Proof. vm_compute. reflexivity. Qed.
+Example C41_ex_split_max : str_split 2 [44]%N [97; 44; 98; 44; 99]%N = [[97]; [98; 44; 99]]%N.
+Proof. vm_compute. reflexivity. Qed.
+Example C41_ex_quote : quote_meta [97; 46; 42]%N = [97; 92; 46; 92; 42]%N.
+Proof. vm_compute. reflexivity. Qed.
+(* re:split ":" "a:" = [a; empty]; with the empty pattern the leading empty match is skipped *)
+Example C41_ex_re_split : re_split (-1) [58]%N [97; 58]%N [(1, 2)%nat] = [[97]; []]%N
+  /\ re_split (-1) [] [97; 98]%N [(0, 0); (1, 1); (2, 2)]%nat = [[97]; [98]]%N.
+Proof. vm_compute. split; reflexivity. Qed.
+Example C41_ex_wf : wf_matches [97; 98]%N [(0, 0); (1, 1); (2, 2)]%nat = true
+  /\ wf_matches [97; 98]%N [(0, 1); (1, 1)]%nat = false.
+Proof. vm_compute. split; reflexivity. Qed.
+Example C41_ex_expand :
+  expand [36; 49; 45; 36; 123; 49; 125; 120; 36; 36; 36; 49; 120]%N [97; 98]%N [(0, 2); (1, 2)]%Z
+  = [98; 45; 98; 120; 36]%N.
+Proof. vm_compute. reflexivity. Qed.
+Example C41_ex_trim : trim_right [97; 195; 169; 255]%N [255]%N = [97; 195; 169]%N
+  /\ trim [195; 169; 97; 195; 169]%N [195; 169]%N = [97]%N.
+Proof. vm_compute. split; reflexivity. Qed.
+Example C41_ex_from_codepoints : from_codepoints [55296]%Z = RBadValue
+  /\ from_codepoints [1114112]%Z = ROutOfRange /\ from_codepoints [233]%Z = ROk [195; 169]%N.
+Proof. vm_compute. repeat split; reflexivity. Qed.
